@@ -27,28 +27,29 @@ def ty_range(ty):
 
 
 class AV:
-    """abstract integer: closed interval + taint"""
-    __slots__ = ("lo", "hi", "t", "why")
+    """abstract integer: closed interval + taint.  `w` marks a value whose range was widened at a loop head: its magnitude
+    is an artefact of the analysis, not something the caller chose, so it is never reported (sticky, clears the taint)"""
+    __slots__ = ("lo", "hi", "t", "why", "w")
 
-    def __init__(self, lo, hi, t=False, why=""):
-        self.lo, self.hi, self.t, self.why = lo, hi, t, why
+    def __init__(self, lo, hi, t=False, why="", w=False):
+        self.lo, self.hi, self.t, self.why, self.w = lo, hi, (t and not w), why, w
 
     def __repr__(self):
-        return "[%s,%s]%s" % (self.lo, self.hi, "T" if self.t else "")
+        return "[%s,%s]%s%s" % (self.lo, self.hi, "T" if self.t else "", "W" if self.w else "")
 
     def key(self):
-        return (self.lo, self.hi, self.t)
+        return (self.lo, self.hi, self.t, self.w)
 
 
 class Fl:
-    """abstract float (only taint matters)"""
-    __slots__ = ("t", "why")
+    """abstract float: taint and, when known, a bound on the magnitude (|x| <= mag)"""
+    __slots__ = ("t", "why", "mag")
 
-    def __init__(self, t=False, why=""):
-        self.t, self.why = t, why
+    def __init__(self, t=False, why="", mag=None):
+        self.t, self.why, self.mag = t, why, mag
 
     def key(self):
-        return ("f", self.t)
+        return ("f", self.t, self.mag)
 
 
 class Rec:
@@ -59,7 +60,7 @@ class Rec:
         self.f = f or {}
 
     def key(self):
-        return tuple(sorted((str(k), vkey(v)) for k, v in self.f.items()))
+        return tuple(sorted((str(k), v if isinstance(v, str) else vkey(v)) for k, v in self.f.items()))
 
 
 class Lazy:
@@ -78,7 +79,7 @@ class Lazy:
 
     @property
     def t(self):
-        return self.mode == "T"
+        return self.mode in ("T", "V")
 
     def key(self):
         return ("lazy", self.ty, self.mode)
@@ -92,12 +93,16 @@ def join(a, b):
     if a is None or b is None:
         return None
     if isinstance(a, AV) and isinstance(b, AV):
-        return AV(min(a.lo, b.lo), max(a.hi, b.hi), a.t or b.t, a.why if a.t else b.why)
+        return AV(min(a.lo, b.lo), max(a.hi, b.hi), a.t or b.t, a.why if a.t else b.why, a.w or b.w)
     if isinstance(a, Fl) and isinstance(b, Fl):
-        return Fl(a.t or b.t, a.why if a.t else b.why)
+        return Fl(a.t or b.t, a.why if a.t else b.why, None if (a.mag is None or b.mag is None) else max(a.mag, b.mag))
     if isinstance(a, Rec) and isinstance(b, Rec):
         out = {}
         for k in set(a.f) | set(b.f):
+            if k == "__closure":
+                if a.f.get(k) == b.f.get(k):
+                    out[k] = a.f[k]
+                continue
             if k in a.f and k in b.f:
                 out[k] = join(a.f[k], b.f[k])
             elif isinstance(k, tuple) and k[0] == "variant":
@@ -106,8 +111,8 @@ def join(a, b):
     if isinstance(a, Lazy) and isinstance(b, Lazy) and a.ty == b.ty:
         if a.mode == b.mode:
             return a
-        if "T" in (a.mode, b.mode):
-            return a if a.mode == "T" else b
+        if a.t or b.t:
+            return Lazy(a.ty, "T", a.why if a.t else b.why)     # valid joined with unknown: caller-controlled, unbounded
         return Lazy(a.ty, "U", "")
     if isinstance(a, Lazy) and isinstance(b, Rec):
         return _join_lazy_rec(a, b)
@@ -118,6 +123,8 @@ def join(a, b):
 
 def _rec_tainted(r):
     for v in r.f.values():
+        if isinstance(v, str):
+            continue
         if isinstance(v, Rec):
             if _rec_tainted(v):
                 return True
@@ -153,6 +160,13 @@ FIELD_INVARIANTS = {
     (ISO_TIME, "millisecond"): (0, 999), (ISO_TIME, "microsecond"): (0, 999), (ISO_TIME, "nanosecond"): (0, 999),
     ("temporal_rs::epoch_nanoseconds::EpochNanoseconds", "0"): (-8_640_000_000_000_000_000_000, 8_640_000_000_000_000_000_000),
 }
+DATE_DUR, TIME_DUR, DUR = CORE + "duration::date::DateDuration", CORE + "duration::time::TimeDuration", CORE + "duration::Duration"
+_S = 2 ** 53            # maxTimeDuration in seconds
+FLOAT_INVARIANTS = {    # |field| bounds of a valid duration (is_valid_duration): calendar fields < 2^32, time total < 2^53 s
+    (DATE_DUR, "years"): 2 ** 32, (DATE_DUR, "months"): 2 ** 32, (DATE_DUR, "weeks"): 2 ** 32, (DATE_DUR, "days"): _S // 86400 + 1,
+    (TIME_DUR, "hours"): _S // 3600 + 1, (TIME_DUR, "minutes"): _S // 60 + 1, (TIME_DUR, "seconds"): _S,
+    (TIME_DUR, "milliseconds"): _S * 10 ** 3, (TIME_DUR, "microseconds"): _S * 10 ** 6, (TIME_DUR, "nanoseconds"): _S * 10 ** 9,
+}
 # types whose every producer validates (C02 rule R6 checks exactly this set); values of these types are valid wherever
 # they come from, so reading through them yields the invariants above
 VALIDATED_OUTER = {CORE + "date::PlainDate", CORE + "datetime::PlainDateTime", CORE + "year_month::PlainYearMonth",
@@ -166,7 +180,13 @@ PUBLIC_RECORDS = {ISO_DATE, ISO_TIME, ISO_DT, CORE + "duration::time::TimeDurati
 
 # raw ISO records arriving through a public parameter are assumed to satisfy their documented validity (assumption A-ISO
 # in DESIGN.md: `IsoDate::new_unchecked` and the public fields are an explicitly unchecked escape hatch)
-ASSUMED_VALID_PARAMS = {ISO_DATE, ISO_TIME, ISO_DT, CORE + "time::PlainTime", CORE + "month_day::PlainMonthDay"}
+ASSUMED_VALID_PARAMS = {ISO_DATE, ISO_TIME, ISO_DT, CORE + "time::PlainTime", CORE + "month_day::PlainMonthDay",
+                        DUR, DATE_DUR, TIME_DUR}
+# validating constructors: their success payload satisfies the invariants (they return Err otherwise)
+VALIDATING_FNS = {CORE + "duration::Duration::new": DUR, CORE + "duration::date::DateDuration::new": DATE_DUR,
+                  CORE + "duration::time::TimeDuration::new": TIME_DUR,
+                  CORE + "duration::Duration::from_partial_duration": DUR, "temporal_rs::iso::IsoTime::new": ISO_TIME,
+                  "temporal_rs::iso::IsoDate::new_with_overflow": ISO_DATE, "temporal_rs::iso::IsoDateTime::new": ISO_DT}
 
 
 def base_ty(ty):
@@ -236,11 +256,11 @@ class Engine:
                 b = b.split(" ", 1)[1]
         r = ty_range(b)
         if r:
-            return AV(r[0], r[1], mode == "T", why if mode == "T" else "")
+            return AV(r[0], r[1], mode in ("T", "V"), why if mode in ("T", "V") else "")
         if b == "bool":
             return AV(0, 1)
         if b in ("f64", "f32"):
-            return Fl(mode == "T", why if mode == "T" else "")
+            return Fl(mode in ("T", "V"), why if mode in ("T", "V") else "")
         bt = base_ty(b)
         if bt in VALIDATED_OUTER and mode != "V":
             # values of the range-checked types are valid however they arrive (C02 R6: every producer validates)
@@ -293,8 +313,12 @@ class Engine:
             if val.mode == "V":
                 inv = FIELD_INVARIANTS.get((ofb, fname))
                 if inv:
-                    return AV(inv[0], inv[1], False, "")
-                return self.top(fty, "V")
+                    return AV(inv[0], inv[1], True, "field `%s` of a valid %s" % (fname, ofb.rsplit("::", 1)[-1]))
+                finv = FLOAT_INVARIANTS.get((ofb, fname))
+                if finv:
+                    fl = Fl(True, "field `%s` of a valid %s" % (fname, ofb.rsplit("::", 1)[-1]), finv)
+                    return Rec({"0": fl, 0: fl})
+                return self.top(fty, "V", val.why or "a valid %s" % ofb.rsplit("::", 1)[-1])
             if val.mode == "T":
                 sub = self.top(fty, "T", val.why)
                 if isinstance(sub, (AV, Fl)) and sub.t:
@@ -305,6 +329,7 @@ class Engine:
 
     # ---- driver (context-sensitive: a callee is analysed per distinct abstract argument tuple) ---------------------------
     MAX_CTX = 24
+    keep_args = False
     MAX_DEPTH = 16
 
     def entry_args(self, f):
@@ -315,12 +340,18 @@ class Engine:
             why = "parameter `%s` of %s" % (p["name"], short)
             if bt in ASSUMED_VALID_PARAMS:
                 vals.append(Lazy(bt, "V", ""))
+            elif (f.d.get("impl_trait") or "").endswith("provider::TimeZoneProvider") and p["ty"] == "i128":
+                # contract of the trait: the library passes the epoch nanoseconds of a valid instant (+- one day of offset)
+                lim = 8_640_000_000_000_000_000_000 + 86_400_000_000_000
+                vals.append(AV(-lim, lim, True, "the epoch nanoseconds passed to TimeZoneProvider::%s" % f.name))
             else:
                 vals.append(self.top(p["ty"], "T", why))
         return vals
 
     def run(self):
         self.memo = {}
+        self.promoted_cache = {}
+        self.ctx_args = {}
         self.ctx = defaultdict(int)
         self.joined = {}
         self.bodies = {}
@@ -332,9 +363,10 @@ class Engine:
         self.stats["contexts"] = len(self.memo)
         self.stats["functions"] = len({k[0] for k in self.memo})
 
-    def call_fn(self, path, args, stack):
+    def call_fn(self, path, args, stack, subst=None):
         f = self.fns[path]
-        key = (path, tuple(vkey(a) for a in args))
+        subst = subst or {}
+        key = (path, tuple(vkey(a) for a in args), tuple(sorted(subst.items())))
         if key in self.memo:
             r = self.memo[key]
             if r != "in-progress":
@@ -342,7 +374,7 @@ class Engine:
         if key in self.memo or path in stack or len(stack) >= self.MAX_DEPTH:
             # recursion / depth bound: unknown result, tainted when any argument is
             self.stats["cutoffs"] = self.stats.get("cutoffs", 0) + 1
-            return self.top(f.ret, "T" if any(_t(a) for a in args) else "U", _why(*args))
+            return self.top(_subst_ty(f.ret, subst), "U", "")
         if self.ctx[path] >= self.MAX_CTX:
             # too many contexts: analyse the join of all further argument tuples once per growth
             j = self.joined.get(path)
@@ -352,15 +384,32 @@ class Engine:
                 nj = [join(x, y) if (x is not None and y is not None) else None for x, y in zip(j[0], args)]
             if j is not None and [vkey(x) for x in nj] == [vkey(x) for x in j[0]]:
                 return j[1]
-            self.joined[path] = (nj, self.top(f.ret, "T" if any(_t(a) for a in nj) else "U", _why(*nj)))
-            ret = FnAnalysis(self, f, nj, stack + (path,)).run()
+            self.joined[path] = (nj, self.top(_subst_ty(f.ret, subst), "U", ""))
+            ret = FnAnalysis(self, f, nj, stack + (path,), subst).run()
             self.joined[path] = (nj, ret)
             return ret
         self.ctx[path] += 1
         self.memo[key] = "in-progress"
-        ret = FnAnalysis(self, f, args, stack + (path,)).run()
+        ret = FnAnalysis(self, f, args, stack + (path,), subst).run()
         self.memo[key] = ret
+        if self.keep_args:
+            self.ctx_args[key] = (args, stack)
         return ret
+
+    def promoted_value(self, f, idx, subst):
+        key = (f.path, idx, tuple(sorted(subst.items())))
+        if key not in self.promoted_cache:
+            self.promoted_cache[key] = None
+            pr = f.promoted
+            m = None
+            for i, x in enumerate(pr):
+                if (x.get("idx", i) if isinstance(x, dict) else i) == idx:
+                    m = x.get("mir", x) if isinstance(x, dict) else x
+            if m is not None and "blocks" in m:
+                fa = FnAnalysis(self, f, [], (f.path,), subst, mir=m)
+                saved = dict(self.site)
+                self.promoted_cache[key] = fa.run(record=False)
+        return self.promoted_cache[key]
 
     def body(self, f):
         b = self.bodies.get(f.path)
@@ -368,18 +417,46 @@ class Engine:
             b = self.bodies[f.path] = M.Body(f)
         return b
 
-    def resolve(self, c):
+    def resolve(self, c, subst=None):
         f = c.fn
         if "ptr" in f:
             return []
         tgt = f.get("resolved") or f.get("path")
-        if tgt in self.fns:
-            return [tgt]
         tr = f.get("trait")
         if tr and "resolved" not in f:
             name = f["path"].rsplit("::", 1)[-1]
-            return [g.path for g in self.impls.get((tr, name), [])]
+            cands = self.impls.get((tr, name), [])
+            if cands:
+                # a trait method on a generic receiver: the substituted self type selects the impl
+                st = _subst_ty((f.get("args") or [""])[0], subst or {})
+                exact = [g for g in cands if (g.d.get("impl_self") or "") == st]
+                if exact:
+                    return [g.path for g in exact]
+                if _has_generic(st, subst):
+                    return [g.path for g in cands]
+                if tgt in self.fns:
+                    return [tgt]          # the trait's default method body
+                return []
+        if tgt in self.fns:
+            return [tgt]
         return []
+
+
+PRIMS = set(BITS) | {"bool", "f64", "f32", "char", "str", "Self"}
+
+
+def _subst_ty(ty, subst):
+    if not subst or not ty:
+        return ty
+    return re.sub(r"(?<![\w:])([A-Za-z_]\w*)(?![\w:])", lambda m: subst.get(m.group(1), m.group(1)), ty)
+
+
+def _has_generic(ty, subst):
+    """does the type still mention an unsubstituted type parameter (a bare capitalised identifier)?"""
+    for m in re.finditer(r"(?<![\w:])([A-Z]\w*)(?![\w:])", ty or ""):
+        if m.group(1) not in PRIMS:
+            return True
+    return False
 
 
 def widen(old, new, ty):
@@ -387,22 +464,28 @@ def widen(old, new, ty):
     if isinstance(old, AV) and isinstance(new, AV):
         if new.lo < old.lo or new.hi > old.hi:
             r = ty_range(ty) or (min(old.lo, new.lo), max(old.hi, new.hi))
-            return AV(min(r[0], new.lo), max(r[1], new.hi), new.t, new.why)
+            return AV(min(r[0], new.lo), max(r[1], new.hi), new.t, new.why, new.w)
     return new
 
 
 class FnAnalysis:
-    def __init__(self, eng, f, args, stack):
+    def __init__(self, eng, f, args, stack, subst=None, mir=None):
         self.eng = eng
         self.f = f
         self.args = args
         self.stack = stack
-        self.b = eng.body(f)
+        self.subst = subst or {}
+        self.is_promoted = mir is not None
+        self.b = eng.body(f) if mir is None else M.Body(f, mir)
         self.blocks = self.b.blocks
         self.nl = len(self.b.locals)
 
     def lty(self, l):
-        return self.b.locals[l][0]
+        t = self.b.locals[l][0]
+        return _subst_ty(t, self.subst) if self.subst else t
+
+    def sty(self, t):
+        return _subst_ty(t, self.subst) if self.subst else t
 
     # ---- state helpers ---------------------------------------------------------------------------------------------
     def read_place(self, env, p):
@@ -413,7 +496,7 @@ class FnAnalysis:
             if e == "*":
                 continue
             if isinstance(e, dict) and "f" in e:
-                v = self.eng.field_of(v, e.get("n"), e["f"], e.get("ty"), e.get("of"))
+                v = self.eng.field_of(v, e.get("n"), e["f"], self.sty(e.get("ty")), self.sty(e.get("of")))
             elif isinstance(e, dict) and "as" in e:
                 # downcast: payload record of the variant
                 if isinstance(v, Rec):
@@ -423,12 +506,14 @@ class FnAnalysis:
                         v = None            # a variant this value cannot be (infeasible path) or unknown
                 # a Lazy stays: its fields are derived from the field types
             elif isinstance(e, dict) and ("idx" in e or "cidx" in e):
-                v = None if not isinstance(v, Lazy) else Lazy(v.ty + "[]", v.t, v.why)
+                v = None if not isinstance(v, Lazy) else Lazy(v.ty + "[]", v.mode, v.why)
             else:
                 v = None
         return v
 
     def operand(self, env, op):
+        if "rp" in op:
+            return self.get_path(env, op["rp"][0], op["rp"][1])
         if "k" in op:
             k = op["k"]
             v = k.get("val")
@@ -436,9 +521,16 @@ class FnAnalysis:
                 return AV(int(v), int(v))
             if isinstance(v, int):
                 return AV(v, v)
+            if "promoted" in k and not self.is_promoted:
+                pv = self.eng.promoted_value(self.f, k["promoted"], self.subst)
+                if pv is not None:
+                    return pv
             if isinstance(v, dict) and "f64" in v:
-                return Fl(False)
-            return self.eng.top(k.get("ty"))
+                try:
+                    return Fl(False, "", abs(float(v["f64"])))
+                except (TypeError, ValueError):
+                    return Fl(False)
+            return self.eng.top(self.sty(k.get("ty")))
         p = M.op_place(op)
         if p is None:
             return None
@@ -446,33 +538,86 @@ class FnAnalysis:
 
     def op_ty(self, op):
         if "k" in op:
-            return op["k"].get("ty")
+            return self.sty(op["k"].get("ty"))
         p = M.op_place(op)
         l = M.place_local(p)
         pr = M.place_proj(p)
         for e in reversed(pr):
             if isinstance(e, dict) and "ty" in e:
-                return e["ty"]
+                return self.sty(e["ty"])
         return self.lty(l)
+
+    # ---- places: (root local, field path) --------------------------------------------------------------------------------
+    def resolve_place(self, env, place):
+        """(root local, path of (name, index) field keys) of a place made of derefs and field projections, following the
+        reference / temporary-copy aliases recorded in the environment; None for anything else"""
+        l = M.place_local(place)
+        root, path = env.get(("alias", l), (l, ()))
+        for e in M.place_proj(place):
+            if e == "*":
+                continue
+            if isinstance(e, dict) and "f" in e:
+                path = path + ((e.get("n"), e["f"]),)
+            else:
+                return None
+        return root, path
+
+    def get_path(self, env, root, path):
+        v = env.get(root)
+        for name, idx in path:
+            v = self.eng.field_of(v, name, idx, None, None)
+        return v
+
+    def updated(self, val, path, newval):
+        (name, idx) = path[0]
+        if isinstance(val, Lazy):
+            e = self.eng.expand(val)
+            val = e if e is not None else Rec({"__lazy": val})
+        f = dict(val.f) if isinstance(val, Rec) else {}
+        cur = f.get(name) if (name is not None and name in f) else f.get(idx)
+        if cur is None and "__lazy" in f and len(path) > 1:
+            cur = self.eng.field_of(f["__lazy"], name, idx, None, None)
+        new = newval if len(path) == 1 else self.updated(cur, path[1:], newval)
+        if name is not None:
+            f[name] = new
+        f[idx] = new
+        return Rec(f)
+
+    def set_path(self, env, root, path, newval):
+        if not path:
+            env[root] = newval
+        else:
+            env[root] = self.updated(env.get(root), path, newval)
+
+    def kill_aliases(self, env, root, keep=None):
+        for k in [k for k in env if isinstance(k, tuple) and k[0] in ("alias", "abs") and k[1] != keep]:
+            v = env[k]
+            if (k[0] == "alias" and v[0] == root) or (k[0] == "abs" and v[0] == root):
+                del env[k]
 
     def write(self, env, place, val):
         l = M.place_local(place)
         pr = M.place_proj(place)
         if not pr:
             env[l] = val
+            self.kill_aliases(env, l)
             return
-        # field write: update record
-        cur = env.get(l)
-        flds = [e for e in pr if isinstance(e, dict) and "f" in e]
-        if len(flds) == 1 and all((e == "*" or e is flds[0]) for e in pr):
-            rec = Rec(dict(cur.f)) if isinstance(cur, Rec) else Rec({})
-            rec.f[flds[0].get("n") if flds[0].get("n") is not None else flds[0]["f"]] = val
-            if isinstance(cur, Lazy):
-                rec.f["__lazy"] = cur
-            env[l] = rec if not isinstance(cur, Lazy) else cur
-        # deeper writes: give up on precision
-        elif l in env:
-            pass
+        rp = self.resolve_place(env, place)
+        if rp is None:
+            # a write through an index / downcast projection: the container becomes unknown
+            root = env.get(("alias", l), (l, ()))[0]
+            env[root] = None
+            if root != l:
+                env[l] = None
+            self.kill_aliases(env, root)
+            return
+        root, path = rp
+        self.set_path(env, root, path, val)
+        self.kill_aliases(env, root, keep=l)
+        if root != l:
+            # the reference's own view
+            own = [((e.get("n"), e["f"])) for e in pr if isinstance(e, dict) and "f" in e]
+            env[l] = self.updated(env.get(l), tuple(own), val) if own else val
 
     # ---- arithmetic --------------------------------------------------------------------------------------------------
     def arith(self, op, a, b, ty):
@@ -481,6 +626,13 @@ class FnAnalysis:
             t = (getattr(a, "t", False) or getattr(b, "t", False))
             why = getattr(a, "why", "") if getattr(a, "t", False) else getattr(b, "why", "")
             return AV(r[0], r[1], t, why) if r else None
+        w = a.w or b.w
+        r_ = self._arith(op, a, b, ty)
+        if r_ is not None and w:
+            r_ = AV(r_.lo, r_.hi, False, "", True)
+        return r_
+
+    def _arith(self, op, a, b, ty):
         t = a.t or b.t
         why = a.why if a.t else b.why
         if op in ("Add", "AddWithOverflow", "AddUnchecked"):
@@ -524,11 +676,11 @@ class FnAnalysis:
         r = ty_range(ty)
         if isinstance(v, AV) and r:
             if v.lo < r[0] or v.hi > r[1]:
-                return AV(max(v.lo, r[0]) if v.lo <= r[1] else r[0], min(v.hi, r[1]) if v.hi >= r[0] else r[1], v.t, v.why)
+                return AV(max(v.lo, r[0]) if v.lo <= r[1] else r[0], min(v.hi, r[1]) if v.hi >= r[0] else r[1], v.t, v.why, v.w)
         return v
 
     # ---- main loop -------------------------------------------------------------------------------------------------------
-    def run(self):
+    def run(self, record=True):
         eng = self.eng
         f = self.f
         init = {}
@@ -566,7 +718,7 @@ class FnAnalysis:
                         if tgt not in work:
                             work.append(tgt)
         # alarms from the final (stable) site results
-        for key, (status, a) in self.site_results.items():
+        for key, (status, a) in (self.site_results.items() if record else ()):
             k = (f.path, key)
             eng.site[k] = max(eng.site.get(k, 0), status)
             if a is not None:
@@ -597,7 +749,7 @@ class FnAnalysis:
                 if do_widen and isinstance(j, AV) and isinstance(a, AV) and (j.lo < a.lo or j.hi > a.hi):
                     r = ty_range(self.lty(k)) if isinstance(k, int) else None
                     if r:
-                        j = AV(min(r[0], j.lo), max(r[1], j.hi), j.t, j.why)
+                        j = AV(min(r[0], j.lo), max(r[1], j.hi), False, "", True)
                 if vkey(j) != vkey(a):
                     changed = True
                 out[k] = j
@@ -638,46 +790,54 @@ class FnAnalysis:
         kind = rv[0]
         l = M.place_local(place)
         val = None
+        self._pending_alias = None
+        self._pending_pred = None
         if kind == "use":
             op = rv[1]
             val = self.operand(env, op)
             p = M.op_place(op)
-            if p is not None and not M.place_proj(p) and not M.place_proj(place):
-                env[("alias", l)] = env.get(("alias", p), p) if False else self.root(env, p)
-                if ("p", p) in env:
-                    env[("p", l)] = env[("p", p)]
-            else:
-                env.pop(("alias", l), None)
+            self._pending_alias = None
+            if p is not None and not M.place_proj(place):
+                rp = self.resolve_place(env, p)
+                # a compiler temporary holding a copy of a scalar / a moved reference stands for the place it was read from
+                if rp is not None and self.b.locals[l][1] is None and (isinstance(val, AV) or self.lty(l).startswith("&")):
+                    self._pending_alias = rp
+                if not M.place_proj(p) and ("p", p) in env:
+                    self._pending_pred = env[("p", p)]
         elif kind == "ref":
             p = rv[2]
             val = self.read_place(env, p)
-            if not M.place_proj(p) and not M.place_proj(place):
-                env[("alias", l)] = self.root(env, p)
-            elif all(e == "*" for e in M.place_proj(p)) and not M.place_proj(place):
-                env[("alias", l)] = self.root(env, M.place_local(p))
+            self._pending_alias = self.resolve_place(env, p) if not M.place_proj(place) else None
         elif kind == "cast":
-            ck, op, fty, tty = rv[1], rv[2], rv[3], rv[4]
+            ck, op, fty, tty = rv[1], rv[2], self.sty(rv[3]), self.sty(rv[4])
             v = self.operand(env, op)
             if ck == "IntToInt":
                 r = ty_range(tty)
                 if isinstance(v, AV) and r and v.lo >= r[0] and v.hi <= r[1]:
-                    val = AV(v.lo, v.hi, v.t, v.why)
+                    val = AV(v.lo, v.hi, v.t, v.why, v.w)
                     p = M.op_place(op)
-                    if p is not None and not M.place_proj(p):
-                        env[("alias", l)] = self.root(env, p)
+                    if p is not None and not M.place_proj(place) and self.b.locals[l][1] is None:
+                        self._pending_alias = self.resolve_place(env, p)
                 elif r:
                     t = getattr(v, "t", False)
                     val = AV(r[0], r[1], t, getattr(v, "why", ""))
             elif ck == "FloatToInt":
                 r = ty_range(tty)
                 if r:
-                    val = AV(r[0], r[1], getattr(v, "t", False), getattr(v, "why", ""))
-            elif ck in ("IntToFloat", "FloatToFloat"):
-                val = Fl(getattr(v, "t", False), getattr(v, "why", ""))
+                    m = getattr(v, "mag", None)
+                    if m is not None:
+                        val = AV(max(r[0], -m), min(r[1], m), getattr(v, "t", False), getattr(v, "why", ""))
+                    else:
+                        val = AV(r[0], r[1], getattr(v, "t", False), getattr(v, "why", ""))
+            elif ck == "IntToFloat":
+                m = max(abs(v.lo), abs(v.hi)) if isinstance(v, AV) else None
+                val = Fl(getattr(v, "t", False), getattr(v, "why", ""), m)
+            elif ck == "FloatToFloat":
+                val = Fl(getattr(v, "t", False), getattr(v, "why", ""), getattr(v, "mag", None))
             else:
                 val = v if ck.startswith("PointerCoercion") or ck in ("PtrToPtr", "Transmute") else None
         elif kind == "bin":
-            op, a, b, ty = rv[1], self.operand(env, rv[2]), self.operand(env, rv[3]), rv[4]
+            op, a, b, ty = rv[1], self.operand(env, rv[2]), self.operand(env, rv[3]), self.sty(rv[4])
             if op in ("Eq", "Ne", "Lt", "Le", "Gt", "Ge"):
                 val = AV(0, 1)
                 env[("p", l)] = ("cmp", op, rv[2], rv[3])
@@ -686,14 +846,20 @@ class FnAnalysis:
                 val = Rec({0: raw, 1: AV(0, 1)})
             else:
                 if isinstance(a, Fl) or isinstance(b, Fl) or ty in ("f64", "f32"):
+                    ma, mb = getattr(a, "mag", None), getattr(b, "mag", None)
+                    mag = None
+                    if ma is not None and mb is not None:
+                        mag = {"Add": ma + mb, "Sub": ma + mb, "Mul": ma * mb}.get(op)
+                    if op == "Rem" and mb is not None:
+                        mag = mb
                     val = Fl(getattr(a, "t", False) or getattr(b, "t", False),
-                             getattr(a, "why", "") if getattr(a, "t", False) else getattr(b, "why", ""))
+                             getattr(a, "why", "") if getattr(a, "t", False) else getattr(b, "why", ""), mag)
                 else:
                     val = self.clamp_ty(self.arith(op, a, b, ty), ty)
         elif kind == "un":
-            op, a, ty = rv[1], self.operand(env, rv[2]), rv[3]
+            op, a, ty = rv[1], self.operand(env, rv[2]), self.sty(rv[3])
             if op == "Neg" and isinstance(a, AV):
-                val = self.clamp_ty(AV(-a.hi, -a.lo, a.t, a.why), ty)
+                val = self.clamp_ty(AV(-a.hi, -a.lo, a.t, a.why, a.w), ty)
             elif op == "Neg" and isinstance(a, Fl):
                 val = a
             elif op == "Not":
@@ -723,22 +889,34 @@ class FnAnalysis:
                 elif akind["adt"].startswith("core::") and akind["adt"].rsplit("::", 1)[-1] in ("Result", "Option", "ControlFlow") \
                         or (ad is not None and ad.get("kind") == "enum"):
                     val = Rec({("variant", akind["variant"]): val})
+            elif "closure" in akind:
+                rec = {i: v for i, v in enumerate(vals)}
+                rec["__closure"] = akind["closure"]
+                val = Rec(rec)
             else:
                 val = None
         else:
             val = None
         if val is None and kind not in ("use", "ref", "agg"):
             val = self.eng.top(self.lty(l)) if not M.place_proj(place) else None
+        pend_p = {k: env[k] for k in (("p", l),) if k in env} if kind in ("bin", "un") else {}
+        if not M.place_proj(place):
+            env.pop(("alias", l), None)
+            env.pop(("abs", l), None)
+            if kind not in ("bin", "un"):
+                env.pop(("p", l), None)
         self.write(env, place, val)
+        env.update(pend_p)
+        if self._pending_alias is not None and self._pending_alias[0] != l:
+            env[("alias", l)] = self._pending_alias
+        if self._pending_pred is not None:
+            env[("p", l)] = self._pending_pred
 
     def root(self, env, l):
+        """resolved place of a local (for predicates): (root, path)"""
         if not isinstance(l, int):
-            l = M.place_local(l)
-        seen = set()
-        while ("alias", l) in env and l not in seen:
-            seen.add(l)
-            l = env[("alias", l)]
-        return l
+            return self.resolve_place(env, l)
+        return env.get(("alias", l), (l, ()))
 
     # ---- assertions --------------------------------------------------------------------------------------------------
     def check_assert(self, bb, env, t):
@@ -844,6 +1022,9 @@ class FnAnalysis:
             dl = M.place_local(p)
             pred = env.get(("p", dl))
         arms = t["arms"]
+        ln = t.get("line")
+        if isinstance(ln, list) and any("debug_assert" in str(m) for m in ln[1:]):
+            pred = None        # debug assertions vanish in release builds: they bound nothing
         if pred is not None and t.get("ty") == "bool":
             # switchInt(bool): arms [[0, bbFalse]] else bbTrue
             for val, tgt in arms:
@@ -862,18 +1043,18 @@ class FnAnalysis:
                 if val < dv.lo or val > dv.hi:
                     outs.append((tgt, None))
                     continue
-                self.set_all(e2, dl, AV(val, val, dv.t, dv.why))
+                self.apply_refinement(e2, on, AV(val, val, dv.t, dv.why, dv.w))
             outs.append((tgt, e2))
         outs.append((t["else"], dict(env)))
         return outs
 
-    def set_all(self, env, l, av):
-        r = self.root(env, l)
-        for k in list(env.keys()):
-            if isinstance(k, int) and (k == l or k == r or self.root(env, k) == r):
-                if isinstance(env.get(k), AV) or env.get(k) is None:
-                    env[k] = av
-        env[l] = av
+    def set_place(self, env, rp, av):
+        """narrow the value stored at a resolved place and every temporary standing for it"""
+        root, path = rp
+        self.set_path(env, root, path, av)
+        for k in [k for k in env if isinstance(k, tuple) and k[0] == "alias"]:
+            if env[k] == rp and isinstance(env.get(k[1]), (AV, type(None))):
+                env[k[1]] = av
 
     def refine(self, env, pred, truth):
         kind = pred[0]
@@ -900,30 +1081,39 @@ class FnAnalysis:
                     nl, nh = max(x.lo, lo), min(x.hi, h)
                     if nl > nh:
                         return None
-                    self.apply_refinement(env, xop, AV(nl, nh, x.t, x.why))
+                    self.apply_refinement(env, xop, AV(nl, nh, x.t, x.why, x.w))
                 else:
                     # outside the range: only refinable at the ends
                     if x.lo >= lo and x.hi <= h:
                         return None
                     if x.lo >= lo:
-                        self.apply_refinement(env, xop, AV(max(x.lo, h + 1), x.hi, x.t, x.why))
+                        self.apply_refinement(env, xop, AV(max(x.lo, h + 1), x.hi, x.t, x.why, x.w))
                     elif x.hi <= h:
-                        self.apply_refinement(env, xop, AV(x.lo, min(x.hi, lo - 1), x.t, x.why))
+                        self.apply_refinement(env, xop, AV(x.lo, min(x.hi, lo - 1), x.t, x.why, x.w))
             return env
         return env
 
     def apply_refinement(self, env, op, av):
-        p = M.op_place(op)
-        if p is None or M.place_proj(p):
-            return
-        l = M.place_local(p)
+        if "rp" in op:
+            rp = op["rp"]
+            l = None
+        else:
+            p = M.op_place(op)
+            if p is None:
+                return
+            rp = self.resolve_place(env, p)
+            l = M.place_local(p) if not M.place_proj(p) else None
+            if rp is None:
+                return
+        if l is not None:
+            env[l] = av
+        self.set_place(env, rp, av)
         # abs(x) refinement: |x| <= c  =>  x in [-c, c]
-        ab = env.get(("abs", l))
-        self.set_all(env, l, av)
+        ab = env.get(("abs", l)) if l is not None else None
         if ab is not None:
-            x = env.get(ab)
+            x = self.get_path(env, ab[0], ab[1])
             if isinstance(x, AV):
-                self.set_all(env, ab, AV(max(x.lo, -av.hi), min(x.hi, av.hi), x.t, x.why))
+                self.set_place(env, ab, AV(max(x.lo, -av.hi), min(x.hi, av.hi), x.t, x.why, x.w))
 
     # ---- calls -----------------------------------------------------------------------------------------------------------
     def call(self, bb, env, t):
@@ -942,19 +1132,39 @@ class FnAnalysis:
         val = None
         handled = False
         c = M.Call(bb, t, self.b)
-        locals_ = eng.resolve(c)
+        locals_ = eng.resolve(c, self.subst)
+        gargs = [self.sty(x) for x in (fnj.get("args") or [])] if "ptr" not in fnj else []
         if locals_:
             handled = True
             val = None
             first = True
             for g in locals_:
-                r = eng.call_fn(g, args, self.stack)
+                names = eng.fns[g].d.get("generics") or []
+                sub = {}
+                if names and len(names) == len(gargs):
+                    for nm, ga in zip(names, gargs):
+                        if not nm.startswith("'") and not _has_generic(ga, None):
+                            sub[nm] = ga
+                elif names and "impl_self" in eng.fns[g].d and gargs:
+                    # impl method reached through a trait path: `Self` type is the first generic argument
+                    pass
+                r = eng.call_fn(g, args, self.stack, sub)
                 val = r if first else (join(val, r) if (val is not None and r is not None) else None)
                 first = False
             if val is None:
                 val = eng.top(dty)
+            # a summary the analysis could not compute is of unknown provenance: never reported
+            val = self.conform(val, dty, False, "")
             # values of the typestate-checked types are valid wherever they come from (C02 R6)
             val = self.validated(val, dty)
+            for g in locals_:
+                vt = VALIDATING_FNS.get(g)
+                if vt and isinstance(val, Rec):
+                    for k in (("variant", "Ok"), ("variant", "Some")):
+                        if k in val.f and isinstance(val.f[k], Rec):
+                            f2 = dict(val.f)
+                            f2[k] = Rec({0: self.meet_invariants(val.f[k].f.get(0), vt)})
+                            val = Rec(f2)
         # generic provider methods: results are data the provider's author controls
         if fnj.get("trait", "").endswith("provider::TimeZoneProvider") and "resolved" not in fnj:
             handled = True
@@ -974,19 +1184,95 @@ class FnAnalysis:
                     and rng.f["start"].lo == rng.f["start"].hi and rng.f["end"].lo == rng.f["end"].hi:
                 xop = t["args"][1]
                 xp = M.op_place(xop)
-                if xp is not None:
-                    xr = self.root(env, M.place_local(xp))
-                    e2[("p", dl)] = ("contains", rng.f["start"].lo, rng.f["end"].lo, bool(rng.f.get("incl")), {"c": xr})
+                xr = self.resolve_place(env, xp) if xp is not None else None
+                if xr is not None and xr[0] != dl:
+                    e2[("p", dl)] = ("contains", rng.f["start"].lo, rng.f["end"].lo, bool(rng.f.get("incl")), {"rp": xr})
         if name in ("abs", "unsigned_abs") and t["args"]:
             xp = M.op_place(t["args"][0])
-            if xp is not None and not M.place_proj(xp):
-                e2[("abs", dl)] = self.root(env, M.place_local(xp))
+            xr = self.resolve_place(env, xp) if xp is not None else None
+            if xr is not None and xr[0] != dl:
+                e2[("abs", dl)] = xr
         if name in ("eq", "ne", "lt", "le", "gt", "ge") and len(t["args"]) == 2 and path.startswith("core::cmp::"):
             op = {"eq": "Eq", "ne": "Ne", "lt": "Lt", "le": "Le", "gt": "Gt", "ge": "Ge"}[name]
             a0, a1 = (M.op_place(x) for x in t["args"])
-            if a0 is not None and a1 is not None:
-                e2[("p", dl)] = ("cmp", op, {"c": self.root(env, M.place_local(a0))}, {"c": self.root(env, M.place_local(a1))})
+            r0 = self.resolve_place(env, a0) if a0 is not None else None
+            r1 = self.resolve_place(env, a1) if a1 is not None else None
+            if r0 is not None and r1 is not None and dl not in (r0[0], r1[0]):
+                e2[("p", dl)] = ("cmp", op, {"rp": r0}, {"rp": r1})
         return [(tgt_bb, e2)]
+
+    def meet_invariants(self, v, ty, depth=0):
+        """the success payload of a validating constructor: what was computed, narrowed by the type's invariants"""
+        if not isinstance(v, Rec) or depth > 3:
+            return Lazy(ty, "V", "")
+        ad = self.eng.adts.get(ty)
+        if ad is None or ad.get("kind") != "struct":
+            return v
+        out = dict(v.f)
+        for i, fd in enumerate(ad["variants"][0]["fields"]):
+            name = fd["name"]
+            cur = v.f.get(name, v.f.get(i))
+            inv = FIELD_INVARIANTS.get((ty, name))
+            finv = FLOAT_INVARIANTS.get((ty, name))
+            new = cur
+            if inv:
+                if isinstance(cur, AV):
+                    lo, hi = max(cur.lo, inv[0]), min(cur.hi, inv[1])
+                    new = AV(lo, hi, cur.t, cur.why, cur.w) if lo <= hi else AV(inv[0], inv[1], cur.t, cur.why, cur.w)
+                else:
+                    new = AV(inv[0], inv[1], True, "field `%s` of a valid %s" % (name, ty.rsplit("::", 1)[-1]))
+            elif finv:
+                fl = cur.f.get(0, cur.f.get("0")) if isinstance(cur, Rec) else None
+                if isinstance(fl, Fl):
+                    nf = Fl(fl.t, fl.why, finv if fl.mag is None else min(fl.mag, finv))
+                else:
+                    nf = Fl(True, "field `%s` of a valid %s" % (name, ty.rsplit("::", 1)[-1]), finv)
+                new = Rec({"0": nf, 0: nf})
+            elif base_ty(fd["ty"]) in (DATE_DUR, TIME_DUR, ISO_DATE, ISO_TIME):
+                new = self.meet_invariants(cur, base_ty(fd["ty"]), depth + 1) if isinstance(cur, Rec) else Lazy(base_ty(fd["ty"]), "V", "")
+            out[name] = new
+            out[i] = new
+        return Rec(out)
+
+    def conform(self, val, dty, tainted, why):
+        """fit the summary of a (possibly generic) callee to the concrete result type at this call site"""
+        d = (dty or "")
+        r = ty_range(d)
+        if r:
+            if isinstance(val, AV):
+                if val.lo < r[0] or val.hi > r[1]:
+                    return AV(max(val.lo, r[0]) if val.lo <= r[1] else r[0], min(val.hi, r[1]) if val.hi >= r[0] else r[1],
+                              val.t, val.why)
+                return val
+            return AV(r[0], r[1], tainted, why)
+        for w, ks in (("core::result::Result<", "Ok"), ("core::option::Option<", "Some")):
+            if d.startswith(w) and isinstance(val, Rec):
+                k = ("variant", ks)
+                if k in val.f and isinstance(val.f[k], Rec):
+                    inner = _split_generics(d[len(w):-1])[0]
+                    if ty_range(inner) or inner in ("f64", "f32"):
+                        f2 = dict(val.f)
+                        pl = val.f[k].f.get(0)
+                        if inner in ("f64", "f32"):
+                            pl = pl if isinstance(pl, Fl) else Fl(tainted, why)
+                        else:
+                            pl = self.conform(pl, inner, tainted, why)
+                        f2[k] = Rec({0: pl})
+                        return Rec(f2)
+        if d in ("f64", "f32") and not isinstance(val, Fl):
+            return Fl(tainted, why)
+        return val
+
+    def call_closure(self, clo, args):
+        path = clo.f.get("__closure")
+        if path not in self.eng.fns:
+            return None
+        f = self.eng.fns[path]
+        want = self.eng.body(f).argc
+        a = [clo] + list(args)
+        if len(a) != want:
+            a = (a + [None] * want)[:want]
+        return self.eng.call_fn(path, a, self.stack, dict(self.subst))
 
     def validated(self, val, dty):
         d = (dty or "")
@@ -1012,25 +1298,38 @@ class FnAnalysis:
         if name in ("from", "into", "try_from", "try_into") and a0 is not None and (path.startswith("core::convert::")):
             if isinstance(a0, AV) and r:
                 if a0.lo >= r[0] and a0.hi <= r[1]:
-                    return AV(a0.lo, a0.hi, a0.t, a0.why)
-                return AV(r[0], r[1], a0.t, a0.why)
+                    return AV(a0.lo, a0.hi, a0.t, a0.why, a0.w)
+                return AV(r[0], r[1], a0.t, a0.why, a0.w)
             if isinstance(a0, AV) and dty in ("f64", "f32"):
-                return Fl(a0.t, a0.why)
+                return Fl(a0.t, a0.why, max(abs(a0.lo), abs(a0.hi)))
+            if isinstance(a0, Fl) and dty in ("f64", "f32"):
+                return a0
+            if isinstance(a0, Fl) and r:
+                if a0.mag is not None:
+                    return AV(max(r[0], -a0.mag), min(r[1], a0.mag), a0.t, a0.why)
+                return AV(r[0], r[1], a0.t, a0.why, a0.w)
             if isinstance(a0, AV) and dty.startswith("core::result::Result<"):
                 inner = re.match(r"core::result::Result<([^,]+),", dty)
                 ir = ty_range(inner.group(1)) if inner else None
                 if ir:
-                    return Rec({0: AV(max(a0.lo, ir[0]), min(a0.hi, ir[1]), a0.t, a0.why) if a0.hi >= ir[0] and a0.lo <= ir[1]
-                                else AV(ir[0], ir[1], a0.t, a0.why)})
+                    return Rec({0: AV(max(a0.lo, ir[0]), min(a0.hi, ir[1]), a0.t, a0.why, a0.w) if a0.hi >= ir[0] and a0.lo <= ir[1]
+                                else AV(ir[0], ir[1], a0.t, a0.why, a0.w)})
             return a0 if isinstance(a0, (Lazy, Rec, Fl)) and base_ty(dty) == base_ty(getattr(a0, "ty", dty)) else eng.top(dty, getattr(a0, "t", False), getattr(a0, "why", ""))
         if name == "new" and "RangeInclusive" in path and len(args) == 2:
             return Rec({"start": a0, "end": a1, "incl": AV(1, 1)})
         if name in ("abs", "unsigned_abs") and isinstance(a0, AV):
             m = max(abs(a0.lo), abs(a0.hi))
             lo = 0 if a0.lo <= 0 <= a0.hi else min(abs(a0.lo), abs(a0.hi))
-            return self.clamp_ty(AV(lo, m, a0.t, a0.why), dty) if name == "abs" else AV(lo, m, a0.t, a0.why)
-        if name in ("abs",) and isinstance(a0, Fl):
+            return self.clamp_ty(AV(lo, m, a0.t, a0.why, a0.w), dty) if name == "abs" else AV(lo, m, a0.t, a0.why, a0.w)
+        if name in ("abs", "trunc", "floor", "ceil", "round", "copysign", "signum", "fract") and isinstance(a0, Fl):
+            if name in ("floor", "ceil", "round") and a0.mag is not None:
+                return Fl(a0.t, a0.why, a0.mag + 1)
+            if name in ("signum", "fract"):
+                return Fl(a0.t, a0.why, 1)
             return a0
+        if name in ("mul_add",) and all(isinstance(x, Fl) for x in args[:3]) and len(args) == 3:
+            ms = [x.mag for x in args]
+            return Fl(any(x.t for x in args), _why(*args), None if None in ms else ms[0] * ms[1] + ms[2])
         if name == "rem_euclid" and isinstance(a1, AV):
             m = max(abs(a1.lo), abs(a1.hi))
             if m > 0:
@@ -1048,6 +1347,13 @@ class FnAnalysis:
             return AV(-1, 1)
         if name in ("pow",) and isinstance(a0, AV) and isinstance(a1, AV) and a0.lo >= 0 and a1.lo >= 0 and a1.hi <= 64:
             return self.clamp_ty(AV(a0.lo ** a1.lo, a0.hi ** a1.hi, a0.t or a1.t, a0.why), dty)
+        if name == "default" and "Default" in path:
+            if r:
+                return AV(0, 0)
+            if dty in ("f64", "f32"):
+                return Fl(False, "", 0)
+            if dty == "bool":
+                return AV(0, 0)
         if name == "from_residual":
             if "Option" in (dty or "")[:30]:
                 return Rec({("variant", "None"): Rec({})})
@@ -1077,6 +1383,71 @@ class FnAnalysis:
             if name == "unwrap_or_else":
                 return eng.top(dty, "T" if _t(pl) or _t(a0) else "U", _why(pl, a0))
             return pl if pl is not None else eng.top(dty, "T" if _t(a0) else "U", _why(a0))
+        if ("::Option" in path or "::Result" in path) and a0 is not None and \
+                name in ("map", "and_then", "map_or", "map_or_else", "unwrap_or_else", "map_err", "or_else", "is_some_and",
+                         "is_ok_and", "filter", "inspect"):
+            ok_k = ("variant", "Ok") if "::Result" in path else ("variant", "Some")
+            er_k = ("variant", "Err") if "::Result" in path else ("variant", "None")
+            pl = _payload(a0, eng)
+            has_err = not (isinstance(a0, Rec) and any(isinstance(k, tuple) for k in a0.f) and er_k not in a0.f)
+            if name in ("map_err", "or_else", "inspect", "filter"):
+                if name in ("map_err", "or_else") and has_err and isinstance(a1, Rec) and "__closure" in a1.f:
+                    self.call_closure(a1, [eng.top(None)])          # analyse the closure body for its own sites
+                if name == "filter" and isinstance(a1, Rec) and "__closure" in a1.f and pl not in (None, "never"):
+                    self.call_closure(a1, [pl])
+                    return Rec({ok_k: Rec({0: pl}), er_k: Rec({})})
+                return a0
+            clo = args[-1]
+            res = None
+            if pl != "never" and isinstance(clo, Rec) and "__closure" in clo.f:
+                if name in ("unwrap_or_else", "map_or_else") and name == "unwrap_or_else":
+                    res = None
+                else:
+                    res = self.call_closure(clo, [pl])
+            if name == "map":
+                out = {}
+                if pl != "never":
+                    out[ok_k] = Rec({0: res if res is not None else eng.top(_inner_ty(dty))})
+                if has_err:
+                    out[er_k] = Rec({})
+                return Rec(out)
+            if name == "and_then":
+                if pl == "never":
+                    return Rec({er_k: Rec({})})
+                base = res if isinstance(res, Rec) else eng.top(dty)
+                if has_err and isinstance(base, Rec):
+                    f2 = dict(base.f)
+                    f2.setdefault(er_k, Rec({}))
+                    base = Rec(f2)
+                return base
+            if name == "map_or":
+                d = a1
+                if pl == "never":
+                    return d
+                if res is None or d is None:
+                    return eng.top(dty)
+                return join(res, d) if has_err else res
+            if name in ("unwrap_or_else", "map_or_else"):
+                alt = None
+                c_alt = args[1] if len(args) > 1 else None
+                if has_err and isinstance(c_alt, Rec) and "__closure" in c_alt.f:
+                    alt = self.call_closure(c_alt, [] if "::Option" in path else [eng.top(None)])
+                if name == "unwrap_or_else":
+                    good = None if pl == "never" else pl
+                else:
+                    c_ok = args[2] if len(args) > 2 else None
+                    good = self.call_closure(c_ok, [pl]) if (pl != "never" and isinstance(c_ok, Rec) and "__closure" in c_ok.f) else None
+                if good is None and alt is None:
+                    return eng.top(dty)
+                if not has_err:
+                    return good if good is not None else eng.top(dty)
+                if pl == "never":
+                    return alt if alt is not None else eng.top(dty)
+                return join(good, alt) if (good is not None and alt is not None) else eng.top(dty)
+            return eng.top(dty)
+        if name == "then" and path.endswith("bool::then") and isinstance(a1, Rec) and "__closure" in a1.f:
+            res = self.call_closure(a1, [])
+            return Rec({("variant", "Some"): Rec({0: res if res is not None else eng.top(_inner_ty(dty))}), ("variant", "None"): Rec({})})
         if name in ("ok_or", "ok_or_else", "ok") and a0 is not None and ("Option" in path or "Result" in path):
             pl = _payload(a0, eng)
             if pl == "never":
@@ -1085,8 +1456,12 @@ class FnAnalysis:
                         ("variant", "Err" if name != "ok" else "None"): Rec({})})
         if name in ("deref", "as_ref", "clone", "borrow", "to_owned", "copied", "cloned", "as_inner", "as_") and a0 is not None:
             if isinstance(a0, Fl) and r:
-                return AV(r[0], r[1], a0.t, a0.why)
-            return a0 if not (isinstance(a0, AV) and r and (a0.lo < r[0] or a0.hi > r[1])) else AV(r[0], r[1], a0.t, a0.why)
+                if a0.mag is not None:
+                    return AV(max(r[0], -a0.mag), min(r[1], a0.mag), a0.t, a0.why)
+                return AV(r[0], r[1], a0.t, a0.why, a0.w)
+            if isinstance(a0, AV) and dty in ("f64", "f32"):
+                return Fl(a0.t, a0.why, max(abs(a0.lo), abs(a0.hi)))
+            return a0 if not (isinstance(a0, AV) and r and (a0.lo < r[0] or a0.hi > r[1])) else AV(r[0], r[1], a0.t, a0.why, a0.w)
         if name in ("len",):
             return AV(0, (1 << 63) - 1)
         if name in ("checked_add", "checked_sub", "checked_mul", "checked_div", "checked_neg", "checked_abs",
@@ -1105,6 +1480,11 @@ class FnAnalysis:
         if dty in ("f64", "f32"):
             return Fl(tnt, why)
         return eng.top(dty, False, "")
+
+
+def _inner_ty(dty):
+    m = re.match(r"^(?:core::result::Result|core::option::Option)<(.*)>$", dty or "")
+    return _split_generics(m.group(1))[0] if m else None
 
 
 def _split_generics(inner):
@@ -1175,25 +1555,25 @@ def _refine_cmp(op, a, b):
         lo, hi = max(a.lo, b.lo), min(a.hi, b.hi)
         if lo > hi:
             return None, None
-        return AV(lo, hi, a.t, a.why), AV(lo, hi, b.t, b.why)
+        return AV(lo, hi, a.t, a.why, a.w), AV(lo, hi, b.t, b.why, b.w)
     if op == "Ne":
         if a.lo == a.hi == b.lo == b.hi:
             return None, None
         na, nb = a, b
         if b.lo == b.hi:
             if a.lo == b.lo:
-                na = AV(a.lo + 1, a.hi, a.t, a.why)
+                na = AV(a.lo + 1, a.hi, a.t, a.why, a.w)
             elif a.hi == b.lo:
-                na = AV(a.lo, a.hi - 1, a.t, a.why)
+                na = AV(a.lo, a.hi - 1, a.t, a.why, a.w)
         return na, nb
     if op == "Lt":
         if a.lo >= b.hi:
             return None, None
-        return AV(a.lo, min(a.hi, b.hi - 1), a.t, a.why), AV(max(b.lo, a.lo + 1), b.hi, b.t, b.why)
+        return AV(a.lo, min(a.hi, b.hi - 1), a.t, a.why, a.w), AV(max(b.lo, a.lo + 1), b.hi, b.t, b.why, b.w)
     if op == "Le":
         if a.lo > b.hi:
             return None, None
-        return AV(a.lo, min(a.hi, b.hi), a.t, a.why), AV(max(b.lo, a.lo), b.hi, b.t, b.why)
+        return AV(a.lo, min(a.hi, b.hi), a.t, a.why, a.w), AV(max(b.lo, a.lo), b.hi, b.t, b.why, b.w)
     if op == "Gt":
         nb, na = _refine_cmp("Lt", b, a)
         return na, nb
